@@ -261,6 +261,10 @@ def run(R):
                 # the same user on the same engine with OTHER passwords, within one
                 # process: anything remembered per (user, engine) would be stale
                 eng = b"\x80\x00\x1f\x88\x04c10-fixed"
+            elif n % 3 == 0:
+                # a NUL-padded text engine id (RFC 3411 allows it): runs of zero octets
+                # as long as the zeroed digest placeholder
+                eng = b"\x80\x00\x1f\x88\x04" + b"ab" + b"\x00" * rng.choice((11, 12, 13, 24))
             boots = rng.choice((0, 1, 127, 128, 65535, 2**31 - 2, rng.randint(0, 2**31 - 2)))
             tshift = rng.choice((0, 1, 127, 128, 86400, 10**7, 2**31 - 1))
             one_world(R, level, "pw", n, auth_pw, priv_pw, eng, boots, tshift, ops=("get", "set"), pad=rng.choice((0, 5, 40)))
